@@ -153,3 +153,32 @@ func LeadingZeroBytes(b []byte) int {
 	}
 	return n
 }
+
+var sparseLimbs = []uint64{0, 0, 1, 1, ^uint64(0), 1 << 63, 1 << 32, 1<<32 - 1, 2}
+
+// Limbs draws a 256-bit value limb by limb (four 64-bit limbs, most significant first), the way word-level code sees it:
+// class "sparse" takes most limbs from {0, 1, 2, 2^32-1, 2^32, 2^63, 2^64-1} (so values such as 2^64+1, 2^192+1, 2^128, "low limb 1,
+// high limbs random" are common), class "mixed" mixes those with uniform limbs. Values whose low (or any) word looks like a
+// small constant while the whole value does not are what truncating conversions and partial comparisons confuse.
+func Limbs(t *rapid.T, label string) (*big.Int, string) {
+	cls := Pick(t, label+".lclass", "sparse", "sparse", "mixed")
+	r := Rand(t, label+".lseed")
+	v := new(big.Int)
+	for i := 0; i < 4; i++ {
+		var l uint64
+		special := true
+		if cls == "mixed" {
+			special = r.Intn(2) == 0
+		} else {
+			special = r.Intn(8) != 0
+		}
+		if special {
+			l = sparseLimbs[Uniform(t, label+".limb", 0, len(sparseLimbs)-1)]
+		} else {
+			l = r.Uint64()
+		}
+		v.Lsh(v, 64)
+		v.Or(v, new(big.Int).SetUint64(l))
+	}
+	return v, "limbs-" + cls
+}
